@@ -56,7 +56,7 @@ func c11Gen(c *Ctx) *c11Scenario {
 		sc.Arg = g.Range(1, 4)
 	}
 	if g.Bool() {
-		sc.As = "x"
+		sc.As = []string{"x", "x", "v"}[g.Intn(3)] // (also the name of the aggregated field itself)
 	}
 	switch sc.Fn {
 	case "min", "max", "first", "last", "percentile", "mode", "median":
